@@ -337,6 +337,9 @@ func execute(wd *worldDef, hist []int, trace func(string, ...interface{})) (res 
 func workerMain() int {
 	fd3 := harness.KeepStdout() // results go to the original stdout (a pipe to the master)
 	harness.SilenceStdout()
+	// the scratch root is named after the pid: a crashed process with a recycled pid may have left
+	// replica directories behind, and InitChain fails on a directory that already holds a chain
+	harness.RemoveScratch()
 	defer harness.RemoveScratch()
 	return explore.ServeWorker(fd3, func(raw json.RawMessage) interface{} {
 		var j explore.BFSJob
@@ -365,6 +368,7 @@ type replayFile struct {
 
 func replay(path string) int {
 	harness.SilenceStdout()
+	harness.RemoveScratch()
 	defer harness.RemoveScratch()
 	var rf replayFile
 	b, err := os.ReadFile(path)
